@@ -518,6 +518,27 @@ def runWith (table : List BuiltinMsg) (v : V) (e : View) (errors : List Str) :
 def run (v : V) (e : View) (errors : List Str) : Except Raise Outcome :=
   runWith Flatland.Generated.C16.builtinMessages v e errors
 
+/-- `Validator.note_warning(element, state, key, **info)`: line for line the body of `note_error`
+    with `element.add_warning` in place of `element.add_error` — the same function, of the
+    element's warnings list (`add_warning` ignores duplicates exactly as `add_error` does) -/
+def noteWarning (e : Env) (warnings : List Str) (m : Msg) (callable : Bool := false) :
+    Except Raise (List Str) :=
+  noteError e warnings m callable
+
+/-- a validator whose failures go through `note_warning`: `Outcome.errors` is then the element's
+    WARNINGS list after the call (its errors are not touched) -/
+def runWarnWith (table : List BuiltinMsg) (v : V) (e : View) (warnings : List Str) :
+    Except Raise Outcome := do
+  let (b, note) ← verdict v e
+  match note with
+  | none => pure { verdict := b, errors := warnings, value := valueAfter v e }
+  | some n =>
+    match messageOf table v.className n.key with
+    | none => .error .attributeError
+    | some msg =>
+      let warnings' ← noteWarning (envOf v e n.info) warnings msg
+      pure { verdict := b, errors := warnings', value := valueAfter v e }
+
 /-- `Validator.__init__(**kw)`: message attributes overridden on the instance shadow the
     class's templates -/
 def overrideTable (table : List BuiltinMsg) (cls : String) (overrides : List (String × Msg)) :
@@ -532,5 +553,9 @@ def overrideTable (table : List BuiltinMsg) (cls : String) (overrides : List (St
 def runOverridden (overrides : List (String × Msg)) (v : V) (e : View) (errors : List Str) :
     Except Raise Outcome :=
   runWith (overrideTable Flatland.Generated.C16.builtinMessages v.className overrides) v e errors
+
+def runWarnOverridden (overrides : List (String × Msg)) (v : V) (e : View) (warnings : List Str) :
+    Except Raise Outcome :=
+  runWarnWith (overrideTable Flatland.Generated.C16.builtinMessages v.className overrides) v e warnings
 
 end Flatland.C15
